@@ -8,8 +8,10 @@ import (
 	"net"
 	"strings"
 	"sync"
+	"sync/atomic"
 	"time"
 
+	"github.com/saucelabs/forwarder/conntrack"
 	"github.com/saucelabs/forwarder/proxyproto"
 	"github.com/saucelabs/forwarder/verifharness/lib"
 	"github.com/saucelabs/forwarder/verifharness/wiring"
@@ -235,10 +237,11 @@ func (t *tapListener) Accept() (net.Conn, error) {
 }
 
 type server struct {
-	tap  *tapListener
-	ppl  *proxyproto.Listener
-	mu   sync.Mutex
-	byCl map[string]chan observed // key: client's socket address
+	accepted atomic.Int64
+	tap      *tapListener
+	ppl      *proxyproto.Listener
+	mu       sync.Mutex
+	byCl     map[string]chan observed // key: client's socket address
 }
 
 func newServer() *server {
@@ -270,6 +273,11 @@ func (s *server) loop() {
 		s.tap.mu.Lock()
 		raw := s.tap.last
 		s.tap.mu.Unlock()
+		// every other connection is wrapped the way forwarder.Listener.Accept (net.go) wraps what
+		// the PROXY-protocol listener returns, with and without traffic tracking
+		if n := s.accepted.Add(1); n%2 == 0 {
+			c = conntrack.Builder{TrackTraffic: n%4 == 0, OnClose: func() {}}.Build(c)
+		}
 		go s.serve(c, raw)
 	}
 }
@@ -292,12 +300,24 @@ func (s *server) serve(c net.Conn, raw net.Conn) {
 		}()
 		f()
 	}
-	wg.Add(4)
+	wg.Add(5)
+	go safe(func() {
+		// a second caller of RemoteAddr, like a logger next to the accept loop
+		a := c.RemoteAddr()
+		mu.Lock()
+		if a == nil {
+			o.remoteNil = true
+		}
+		mu.Unlock()
+		if a != nil {
+			_ = a.String()
+		}
+	})
 	go safe(func() {
 		a := c.RemoteAddr()
 		mu.Lock()
 		o.remote = a
-		o.remoteNil = a == nil
+		o.remoteNil = o.remoteNil || a == nil
 		mu.Unlock()
 		if a != nil {
 			_ = a.String()
